@@ -90,7 +90,6 @@ theorem consumeProof_ok {s s' : St} {p : Nat} (h : consumeProof s p = .ok s') :
         · cases h
         · rename_i hz
           injection h with h; subst h
-    simp only [] at h
           simp [hp, hb, hz]
 
 theorem consumeReservation_ok {s s' : St} {x : Nat} (h : consumeReservation s x = .ok s') :
@@ -102,5 +101,560 @@ theorem consumeReservation_ok {s s' : St} {x : Nat} (h : consumeReservation s x 
     have := getReservation_ok.mp hg
     injection h with h
     exact ⟨this.1, this.2, h.symm⟩
+
+
+/-! ### simulation relation: interpreter state ↔ run-time id tables -/
+
+structure Rel (s : St) (t : RT) : Prop where
+  nB : t.nB = s.nB
+  liveB : ∀ i, t.liveB i = (decide (i < s.nB) && !s.bCons i)
+  nP : t.nP = s.nP
+  liveP : ∀ i, t.liveP i = (decide (i < s.nP) && !s.pCons i)
+  nR : t.nR = s.nR
+  liveR : ∀ i, t.liveR i = (decide (i < s.nR) && !s.rCons i)
+  nA : t.nA = s.nA
+  blobs : ∀ h, s.blobs.contains h = true → t.blobs.contains h = true
+
+theorem Rel.getBucket {s : St} {t : RT} (h : Rel s t) {b : Nat} (hb : b < s.nB) (hc : s.bCons b = false) :
+    t.liveB b = true := by
+  rw [h.liveB]; simp [hb, hc]
+
+theorem rel_newBucket {s : St} {t : RT} (h : Rel s t) (f : Bool) : Rel (newBucket s f) t.newBucket := by
+  refine ⟨?_, ?_, h.nP, h.liveP, h.nR, h.liveR, h.nA, h.blobs⟩
+  · simp [newBucket, RT.newBucket, h.nB]
+  · intro i
+    simp only [newBucket, RT.newBucket, h.nB, upd]
+    by_cases hi : i = s.nB
+    · subst hi; simp
+    · simp only [hi, if_false, h.liveB]
+      by_cases h2 : i < s.nB
+      · have : i < s.nB + 1 := by omega
+        simp [h2, this]
+      · have : ¬ i < s.nB + 1 := by omega
+        simp [h2, this]
+
+theorem rel_consumeBucket {r : Rules} {s s' : St} {t : RT} {b : Nat} (h : Rel s t)
+    (hc : consumeBucket r s b = .ok s') : ∃ t', t.takeBucket b = .ok t' ∧ Rel s' t' := by
+  obtain ⟨hb, hcons, _, rfl⟩ := consumeBucket_ok hc
+  have hl := h.getBucket hb hcons
+  refine ⟨{ t with liveB := upd t.liveB b false }, by simp [RT.takeBucket, hl], ?_⟩
+  refine ⟨h.nB, ?_, h.nP, h.liveP, h.nR, h.liveR, h.nA, h.blobs⟩
+  intro i
+  simp only [upd]
+  by_cases hi : i = b
+  · subst hi; simp
+  · simp [hi, h.liveB]
+
+theorem rel_newProof {s s' : St} {t : RT} {src : Option Nat} (h : Rel s t)
+    (hc : newProof s src = .ok s') :
+    (∀ b, src = some b → t.liveB b = true) ∧ Rel s' t.newProof := by
+  have k := newProof_ok hc
+  obtain ⟨k1, k2, k3, _, _, k6, _, k8, k9, k10, k11, _, k13, _⟩ := k
+  refine ⟨fun b hb => h.getBucket (k1 b hb).1 (k1 b hb).2, ?_⟩
+  refine ⟨by simp [RT.newProof, h.nB, k2], ?_, by simp [RT.newProof, h.nP, k6], ?_,
+          by simp [RT.newProof, h.nR, k9], ?_, by simp [RT.newProof, h.nA, k11], ?_⟩
+  · intro i; simp [RT.newProof, h.liveB, k2, k3]
+  · intro i
+    simp only [RT.newProof, h.nP, k6, k8, upd]
+    by_cases hi : i = s.nP
+    · subst hi; simp
+    · simp only [hi, if_false, h.liveP]
+      by_cases h2 : i < s.nP
+      · have : i < s.nP + 1 := by omega
+        simp [h2, this]
+      · have : ¬ i < s.nP + 1 := by omega
+        simp [h2, this]
+  · intro i; simp [RT.newProof, h.liveR, k9, k10]
+  · intro x hx; rw [k13] at hx; simpa [RT.newProof] using h.blobs x hx
+
+theorem rel_consumeProof {s s' : St} {t : RT} {p : Nat} (h : Rel s t)
+    (hc : consumeProof s p = .ok s') : ∃ t', t.takeProof p = .ok t' ∧ Rel s' t' := by
+  obtain ⟨hp, hcons, k2, k3, _, _, k6, _, k8, k9, k10, k11, _, k13, _⟩ := consumeProof_ok hc
+  have hl : t.liveP p = true := by rw [h.liveP]; simp [hp, hcons]
+  refine ⟨{ t with liveP := upd t.liveP p false }, by simp [RT.takeProof, hl], ?_⟩
+  refine ⟨by simp [h.nB, k2], ?_, by simp [h.nP, k6], ?_, by simp [h.nR, k9], ?_, by simp [h.nA, k11], ?_⟩
+  · intro i; simp [h.liveB, k2, k3]
+  · intro i
+    simp only [upd, k6, k8]
+    by_cases hi : i = p
+    · subst hi; simp
+    · simp [hi, h.liveP]
+  · intro i; simp [h.liveR, k9, k10]
+  · intro x hx; rw [k13] at hx; exact h.blobs x hx
+
+theorem rel_cloneProof {s s' : St} {t : RT} {p : Nat} (h : Rel s t)
+    (hc : cloneProof s p = .ok s') : t.liveP p = true ∧ Rel s' t.newProof := by
+  unfold cloneProof at hc
+  split at hc
+  · cases hc
+  · rename_i hg
+    have hp := getProof_ok.mp hg
+    refine ⟨by rw [h.liveP]; simp [hp], (rel_newProof h hc).2⟩
+
+theorem rel_consumeReservation {s s' : St} {t : RT} {x : Nat} (h : Rel s t)
+    (hc : consumeReservation s x = .ok s') :
+    t.liveR x = true ∧ Rel s' { t with liveR := upd t.liveR x false } := by
+  obtain ⟨hx, hcons, rfl⟩ := consumeReservation_ok hc
+  refine ⟨by rw [h.liveR]; simp [hx, hcons], ?_⟩
+  refine ⟨h.nB, h.liveB, h.nP, h.liveP, h.nR, ?_, h.nA, h.blobs⟩
+  intro i
+  simp only [upd]
+  by_cases hi : i = x
+  · subst hi; simp
+  · simp [hi, h.liveR]
+
+/-- frame of `dropRange`: only `pCons` (on the range) and `bLocks` change -/
+theorem dropRange_ok : ∀ (n i : Nat) {s s' : St}, dropRange n i s = .ok s' →
+    s'.nB = s.nB ∧ s'.bCons = s.bCons ∧ s'.bFung = s.bFung ∧ s'.nP = s.nP ∧ s'.pSrc = s.pSrc ∧
+    (∀ j, s'.pCons j = (s.pCons j || (decide (i ≤ j) && decide (j < i + n)))) ∧
+    s'.nR = s.nR ∧ s'.rCons = s.rCons ∧ s'.nA = s.nA ∧ s'.nI = s.nI ∧ s'.blobs = s.blobs ∧
+    s'.pending = s.pending := by
+  intro n
+  induction n with
+  | zero =>
+    intro i s s' h
+    simp only [dropRange] at h
+    injection h with h; subst h
+    simp only [true_and, Nat.add_zero, and_true]
+    intro j
+    have : (decide (i ≤ j) && decide (j < i)) = false := by
+      rw [Bool.eq_false_iff]; simp only [ne_eq, Bool.and_eq_true, decide_eq_true_eq]; omega
+    simp [this]
+  | succ n ih =>
+    intro i s s' h
+    simp only [dropRange] at h
+    split at h
+    · rename_i hci
+      obtain ⟨a1, a2, a3, a4, a5, a6, a7, a8, a9, a10, a11, a12⟩ := ih (i + 1) h
+      refine ⟨a1, a2, a3, a4, a5, ?_, a7, a8, a9, a10, a11, a12⟩
+      intro j
+      rw [a6 j]
+      by_cases hj : j = i
+      · subst hj; simp [hci]
+      · have e : (decide (i + 1 ≤ j) && decide (j < i + 1 + n)) = (decide (i ≤ j) && decide (j < i + (n + 1))) := by
+          rw [Bool.eq_iff_iff]; simp only [Bool.and_eq_true, decide_eq_true_eq]; omega
+        rw [e]
+    · rename_i hci
+      split at h
+      · cases h
+      · rename_i s1 hcp
+        obtain ⟨_, _, k2, k3, k4, _, k6, k7, k8, k9, k10, k11, k12, k13, k14⟩ := consumeProof_ok hcp
+        obtain ⟨a1, a2, a3, a4, a5, a6, a7, a8, a9, a10, a11, a12⟩ := ih (i + 1) h
+        refine ⟨by rw [a1, k2], by rw [a2, k3], by rw [a3, k4], by rw [a4, k6], by rw [a5, k7], ?_,
+                by rw [a7, k9], by rw [a8, k10], by rw [a9, k11], by rw [a10, k12], by rw [a11, k13],
+                by rw [a12, k14]⟩
+        intro j
+        rw [a6 j, k8]
+        simp only [upd]
+        by_cases hj : j = i
+        · subst hj; simp
+        · have e : (decide (i + 1 ≤ j) && decide (j < i + 1 + n)) = (decide (i ≤ j) && decide (j < i + (n + 1))) := by
+            rw [Bool.eq_iff_iff]; simp only [Bool.and_eq_true, decide_eq_true_eq]; omega
+          rw [e]; simp [hj]
+
+theorem rel_dropAll {s s' : St} {t : RT} (h : Rel s t) (hc : dropRange s.nP 0 s = .ok s') :
+    Rel s' { t with liveP := fun _ => false } := by
+  obtain ⟨a1, a2, _, a4, _, a6, a7, a8, a9, _, a11, _⟩ := dropRange_ok _ _ hc
+  refine ⟨by simp [h.nB, a1], ?_, by simp [h.nP, a4], ?_, by simp [h.nR, a7], ?_, by simp [h.nA, a9], ?_⟩
+  · intro i; simp [h.liveB, a1, a2]
+  · intro i
+    rw [a6 i, a4]
+    by_cases hi : i < s.nP <;> simp [hi]
+  · intro i; simp [h.liveR, a7, a8]
+  · intro x hx; rw [a11] at hx; exact h.blobs x hx
+
+
+/-! ### simulation of one instruction and of the whole run -/
+
+def Effect.isBucketAssertion : Effect → Bool
+  | .assertion (.bucketContents _ _ _) => true
+  | _ => false
+
+/-- the only run-time id errors an accepted manifest can meet, and the (non-default) rule that lets
+them through: a named address used as call target without `validate_dynamic_address_in_command_part`,
+a blob reference without `validate_blob_refs`, the bucket of `ASSERT_BUCKET_CONTENTS` without
+`validate_resource_assertions`. -/
+def AllowedAt (r : Rules) (e : Effect) : RtErr → Prop
+  | .addressNotFound _ => r.dynAddr = false ∧ e.isInvocation = true
+  | .blobNotFound _ => r.blobRefs = false ∧ e.isInvocation = true
+  | .bucketNotFound _ => r.resAssert = false ∧ e.isBucketAssertion = true
+  | _ => False
+
+theorem args_sim (r : Rules) (y : Bool) : ∀ (args : List ArgRef) {s s' : St} {t : RT}, Rel s t →
+    handleArgs r y s args = .ok s' →
+    (∃ t', t.args args = .ok t' ∧ Rel s' t') ∨
+    (∃ h, t.args args = .error (.blobNotFound h) ∧ r.blobRefs = false) := by
+  intro args
+  induction args with
+  | nil => intro s s' t h hc; simp only [handleArgs] at hc; injection hc with hc; subst hc; exact .inl ⟨t, rfl, h⟩
+  | cons a rest ih =>
+    intro s s' t h hc
+    simp only [handleArgs] at hc
+    split at hc
+    · cases hc
+    · rename_i s1 ha
+      -- one argument
+      have step1 : (∃ t1, t.arg a = .ok t1 ∧ Rel s1 t1) ∨
+          (∃ x, t.arg a = .error (.blobNotFound x) ∧ r.blobRefs = false) := by
+        cases a with
+        | bucket b =>
+          obtain ⟨t1, h1, h2⟩ := rel_consumeBucket h ha
+          exact .inl ⟨t1, by simpa [RT.arg] using h1, h2⟩
+        | proof p =>
+          simp only [handleArg] at ha
+          split at ha
+          · cases ha
+          · obtain ⟨t1, h1, h2⟩ := rel_consumeProof h ha
+            exact .inl ⟨t1, by simpa [RT.arg] using h1, h2⟩
+        | reservation x =>
+          obtain ⟨h1, h2⟩ := rel_consumeReservation h ha
+          exact .inl ⟨_, by simp [RT.arg, h1], h2⟩
+        | named n =>
+          simp only [handleArg] at ha
+          split at ha
+          · cases ha
+          · rename_i hg
+            injection ha with ha; subst ha
+            have := getNamed_ok.mp hg
+            exact .inl ⟨t, by simp [RT.arg, h.nA, this], h⟩
+        | «static» => simp only [handleArg] at ha; injection ha with ha; subst ha; exact .inl ⟨t, rfl, h⟩
+        | expr => simp only [handleArg] at ha; injection ha with ha; subst ha; exact .inl ⟨t, rfl, h⟩
+        | other => simp only [handleArg] at ha; injection ha with ha; subst ha; exact .inl ⟨t, rfl, h⟩
+        | blob x =>
+          simp only [handleArg] at ha
+          split at ha
+          · cases ha
+          · rename_i hb
+            injection ha with ha; subst ha
+            by_cases hx : t.blobs.contains x = true
+            · exact .inl ⟨t, by simp only [RT.arg, hx, if_true], h⟩
+            · refine .inr ⟨x, by simp only [RT.arg, hx]; rfl, ?_⟩
+              by_cases hr : r.blobRefs = true
+              · exfalso
+                cases hsb : s.blobs.contains x with
+                | true => exact hx (h.blobs x hsb)
+                | false =>
+                  simp [hr] at hb
+                  simp only [List.contains_eq_mem, decide_eq_false_iff_not] at hsb
+                  exact hsb hb
+              · simpa using hr
+      rcases step1 with ⟨t1, h1, h2⟩ | ⟨x, h1, h2⟩
+      · rcases ih h2 hc with ⟨t', k1, k2⟩ | ⟨x, k1, k2⟩
+        · exact .inl ⟨t', by simp [RT.args, h1, k1], k2⟩
+        · exact .inr ⟨x, by simp [RT.args, h1, k1], k2⟩
+      · exact .inr ⟨x, by simp [RT.args, h1], h2⟩
+
+theorem step_sim {r : Rules} {c : Ctx} {s s' : St} {t : RT} {e : Effect} (h : Rel s t)
+    (hc : step r c s e = .ok s') :
+    (∃ t', t.step e = .ok t' ∧ Rel s' t') ∨ (∃ err, t.step e = .error err ∧ AllowedAt r e err) := by
+  unfold step at hc
+  cases hn : nextReq s e with
+  | error er => rw [hn] at hc; cases hc
+  | ok s0 =>
+    rw [hn] at hc
+    simp only at hc
+    -- `nextReq` only touches `pending`
+    have h0 : Rel s0 t := by
+      unfold nextReq at hn
+      split at hn
+      · split at hn
+        · injection hn with hn; subst hn; exact ⟨h.nB, h.liveB, h.nP, h.liveP, h.nR, h.liveR, h.nA, h.blobs⟩
+        · cases hn
+      · injection hn with hn; subst hn; exact h
+    cases e with
+    | createBucket f =>
+      injection hc with hc; subst hc
+      exact .inl ⟨_, rfl, rel_newBucket h0 f⟩
+    | createProof src =>
+      obtain ⟨k1, k2⟩ := rel_newProof h0 hc
+      cases src with
+      | none => exact .inl ⟨_, rfl, k2⟩
+      | some b => exact .inl ⟨_, by simp [RT.step, RT.getBucket, k1 b rfl], k2⟩
+    | consumeBucket b =>
+      obtain ⟨t', k1, k2⟩ := rel_consumeBucket h0 hc
+      exact .inl ⟨t', by simpa [RT.step] using k1, k2⟩
+    | consumeProof p =>
+      obtain ⟨t', k1, k2⟩ := rel_consumeProof h0 hc
+      exact .inl ⟨t', by simpa [RT.step] using k1, k2⟩
+    | cloneProof p =>
+      obtain ⟨k1, k2⟩ := rel_cloneProof h0 hc
+      exact .inl ⟨_, by simp [RT.step, k1], k2⟩
+    | dropManyProofs named =>
+      cases named with
+      | false => simp only [Bool.false_eq_true, if_false] at hc; injection hc with hc; subst hc; exact .inl ⟨t, rfl, h0⟩
+      | true => simp only [if_true] at hc; exact .inl ⟨_, rfl, rel_dropAll h0 hc⟩
+    | createAddressAndReservation =>
+      injection hc with hc; subst hc
+      refine .inl ⟨_, rfl, ?_⟩
+      refine ⟨h0.nB, h0.liveB, h0.nP, h0.liveP, by simp [newReservation, h0.nR], ?_, by simp [newReservation, h0.nA], h0.blobs⟩
+      intro i
+      simp only [newReservation, upd, h0.nR]
+      by_cases hi : i = s0.nR
+      · subst hi; simp
+      · simp only [hi, if_false, h0.liveR]
+        by_cases h2 : i < s0.nR
+        · have : i < s0.nR + 1 := by omega
+          simp [h2, this]
+        · have : ¬ i < s0.nR + 1 := by omega
+          simp [h2, this]
+    | verification =>
+      dsimp only at hc
+      split at hc
+      · cases hc
+      · injection hc with hc; subst hc; exact .inl ⟨t, rfl, h0⟩
+    | assertion a =>
+      unfold handleAssertion at hc
+      by_cases hr : r.resAssert = true
+      · simp only [hr, if_true] at hc
+        cases a with
+        | worktopNonZero => injection hc with hc; subst hc; exact .inl ⟨t, rfl, h0⟩
+        | worktopAtLeast n =>
+          dsimp only at hc
+          split at hc
+          · cases hc
+          · injection hc with hc; subst hc; exact .inl ⟨t, rfl, h0⟩
+        | worktopAtLeastNF n =>
+          dsimp only at hc
+          split at hc
+          · cases hc
+          · injection hc with hc; subst hc; exact .inl ⟨t, rfl, h0⟩
+        | worktopSet n =>
+          dsimp only at hc
+          split at hc
+          · cases hc
+          · injection hc with hc; subst hc; exact .inl ⟨t, rfl, h0⟩
+        | nextCall n =>
+          dsimp only at hc
+          split at hc
+          · cases hc
+          · injection hc with hc; subst hc
+            exact .inl ⟨t, rfl, ⟨h0.nB, h0.liveB, h0.nP, h0.liveP, h0.nR, h0.liveR, h0.nA, h0.blobs⟩⟩
+        | bucketContents b vf vnf =>
+          dsimp only at hc
+          cases hg : getBucket s0 b with
+          | error er => rw [hg] at hc; cases hc
+          | ok u =>
+            rw [hg] at hc
+            dsimp only at hc
+            have hb := getBucket_ok.mp hg
+            by_cases hv : (!(if s0.bFung b = true then vf else vnf)) = true
+            · rw [if_pos hv] at hc; cases hc
+            · rw [if_neg hv] at hc
+              injection hc with hc; subst hc
+              exact .inl ⟨t, by simp [RT.step, RT.getBucket, h0.getBucket hb.1 hb.2], h0⟩
+      · simp only [hr, if_false] at hc
+        injection hc with hc; subst hc
+        have hr' : r.resAssert = false := by simpa using hr
+        cases a with
+        | bucketContents b vf vnf =>
+          by_cases hl : t.liveB b = true
+          · exact .inl ⟨t, by simp [RT.step, RT.getBucket, hl], h0⟩
+          · exact .inr ⟨.bucketNotFound b, by simp [RT.step, RT.getBucket, hl], hr', rfl⟩
+        | _ => exact .inl ⟨t, rfl, h0⟩
+    | invocation k d args =>
+      dsimp only at hc
+      unfold handleInvocation at hc
+      split at hc
+      · cases hc
+      · rename_i y hy
+        split at hc
+        · cases hc
+        · -- target
+          have htgt : t.target k = .ok () ∨ (∃ a, t.target k = .error (.addressNotFound a) ∧ r.dynAddr = false) := by
+            cases k with
+            | method n =>
+              cases n with
+              | none => exact .inl rfl
+              | some a =>
+                by_cases ha : a < t.nA
+                · exact .inl (by simp [RT.target, ha])
+                · refine .inr ⟨a, by simp [RT.target, ha], ?_⟩
+                  by_cases hd : r.dynAddr = true
+                  · exfalso
+                    simp only [invTarget, hd, if_true] at hy
+                    split at hy
+                    · cases hy
+                    · rename_i hg; exact ha (by rw [h0.nA]; exact getNamed_ok.mp hg)
+                  · simpa using hd
+            | function n =>
+              cases n with
+              | none => exact .inl rfl
+              | some a =>
+                by_cases ha : a < t.nA
+                · exact .inl (by simp [RT.target, ha])
+                · refine .inr ⟨a, by simp [RT.target, ha], ?_⟩
+                  by_cases hd : r.dynAddr = true
+                  · exfalso
+                    simp only [invTarget, hd, if_true] at hy
+                    split at hy
+                    · cases hy
+                    · rename_i hg; exact ha (by rw [h0.nA]; exact getNamed_ok.mp hg)
+                  · simpa using hd
+            | direct => exact .inl rfl
+            | yieldParent => exact .inl rfl
+            | yieldChild i => exact .inl rfl
+          rcases htgt with ht | ⟨a, ht, hd⟩
+          · rcases args_sim r y args h0 hc with ⟨t', k1, k2⟩ | ⟨x, k1, k2⟩
+            · exact .inl ⟨t', by simp [RT.step, ht, k1], k2⟩
+            · exact .inr ⟨.blobNotFound x, by simp [RT.step, ht, k1], ⟨k2, rfl⟩⟩
+          · exact .inr ⟨.addressNotFound a, by simp [RT.step, ht], ⟨hd, rfl⟩⟩
+
+theorem run_sim {r : Rules} {c : Ctx} : ∀ (effects : List Effect) (i : Nat) {s s' : St} {t : RT}, Rel s t →
+    runFrom r c i s effects = .ok s' →
+    (∃ t', t.run effects = .ok t' ∧ Rel s' t') ∨
+    (∃ err e, t.run effects = .error err ∧ e ∈ effects ∧ AllowedAt r e err) := by
+  intro effects
+  induction effects with
+  | nil => intro i s s' t h hc; simp only [runFrom] at hc; injection hc with hc; subst hc; exact .inl ⟨t, rfl, h⟩
+  | cons e rest ih =>
+    intro i s s' t h hc
+    simp only [runFrom] at hc
+    split at hc
+    · cases hc
+    · rename_i s1 hs
+      rcases step_sim h hs with ⟨t1, k1, k2⟩ | ⟨err, k1, k2⟩
+      · rcases ih (i + 1) k2 hc with ⟨t', j1, j2⟩ | ⟨err, e', j1, j2, j3⟩
+        · exact .inl ⟨t', by simp [RT.run, k1, j1], j2⟩
+        · exact .inr ⟨err, e', by simp [RT.run, k1, j1], List.mem_cons_of_mem _ j2, j3⟩
+      · exact .inr ⟨err, e, by simp [RT.run, k1], List.mem_cons_self, k2⟩
+
+/-! ### the preamble establishes the relation -/
+
+theorem addReservations_spec : ∀ (n : Nat) (s : St),
+    (addReservations n s).nR = s.nR + n ∧
+    (∀ i, (addReservations n s).rCons i = (if s.nR ≤ i ∧ i < s.nR + n then false else s.rCons i)) ∧
+    (addReservations n s).nB = s.nB ∧ (addReservations n s).bCons = s.bCons ∧
+    (addReservations n s).nP = s.nP ∧ (addReservations n s).pCons = s.pCons ∧
+    (addReservations n s).nA = s.nA ∧ (addReservations n s).blobs = s.blobs ∧
+    (addReservations n s).bLocks = s.bLocks ∧ (addReservations n s).pSrc = s.pSrc ∧
+    (addReservations n s).pending = s.pending := by
+  intro n
+  induction n with
+  | zero =>
+    intro s
+    simp only [addReservations, Nat.add_zero, true_and, and_true]
+    intro i
+    have : ¬ (s.nR ≤ i ∧ i < s.nR) := by omega
+    simp [this]
+  | succ n ih =>
+    intro s
+    obtain ⟨a1, a2, a3, a4, a5, a6, a7, a8, a9, a10, a11⟩ := ih (newReservation s)
+    simp only [addReservations]
+    refine ⟨by rw [a1]; simp [newReservation]; omega, ?_, by rw [a3]; rfl, by rw [a4]; rfl, by rw [a5]; rfl,
+            by rw [a6]; rfl, by rw [a7]; rfl, by rw [a8]; rfl, by rw [a9]; rfl, by rw [a10]; rfl, by rw [a11]; rfl⟩
+    intro i
+    rw [a2 i]
+    simp only [newReservation, upd]
+    by_cases h1 : s.nR + 1 ≤ i ∧ i < s.nR + 1 + n
+    · have : s.nR ≤ i ∧ i < s.nR + (n + 1) := by omega
+      simp [h1, this]
+    · by_cases hi : i = s.nR
+      · have : s.nR ≤ i ∧ i < s.nR + (n + 1) := by omega
+        simp [h1, hi, this]
+      · have : ¬ (s.nR ≤ i ∧ i < s.nR + (n + 1)) := by omega
+        simp [h1, hi, this]
+
+theorem registerBlobs_spec (r : Rules) : ∀ (l : List Nat) {s s' : St}, registerBlobs r s l = .ok s' →
+    s'.nB = s.nB ∧ s'.bCons = s.bCons ∧ s'.nP = s.nP ∧ s'.pCons = s.pCons ∧ s'.nR = s.nR ∧
+    s'.rCons = s.rCons ∧ s'.nA = s.nA ∧ s'.bLocks = s.bLocks ∧ s'.pSrc = s.pSrc ∧ s'.pending = s.pending ∧
+    (∀ h, s'.blobs.contains h = true → s.blobs.contains h = true ∨ l.contains h = true) := by
+  intro l
+  induction l with
+  | nil => intro s s' h; simp only [registerBlobs] at h; injection h with h; subst h; simp
+  | cons x rest ih =>
+    intro s s' h
+    simp only [registerBlobs] at h
+    split at h
+    · split at h
+      · cases h
+      · obtain ⟨a1, a2, a3, a4, a5, a6, a7, a8, a9, a10, a11⟩ := ih h
+        refine ⟨a1, a2, a3, a4, a5, a6, a7, a8, a9, a10, ?_⟩
+        intro y hy
+        rcases a11 y hy with k | k
+        · exact .inl k
+        · exact .inr (by simp only [List.contains_cons, Bool.or_eq_true]; exact .inr k)
+    · obtain ⟨a1, a2, a3, a4, a5, a6, a7, a8, a9, a10, a11⟩ := ih h
+      refine ⟨a1, a2, a3, a4, a5, a6, a7, a8, a9, a10, ?_⟩
+      intro y hy
+      rcases a11 y hy with k | k
+      · simp only [List.contains_eq_mem, List.mem_append, List.mem_singleton, decide_eq_true_eq] at k
+        rcases k with k | k
+        · exact .inl (by simpa using k)
+        · exact .inr (by simp [k])
+      · exact .inr (by simp only [List.contains_cons, Bool.or_eq_true]; exact .inr k)
+
+theorem preamble_rel {r : Rules} {c : Ctx} {s : St} (h : preamble r c = .ok s) : Rel s (RT.init c) := by
+  unfold preamble at h
+  obtain ⟨a1, a2, a3, a4, a5, a6, a7, a8, a9, a10, a11⟩ := registerBlobs_spec r c.blobs h
+  obtain ⟨b1, b2, b3, b4, b5, b6, b7, b8, _, _, _⟩ := addReservations_spec c.nPrealloc St.init
+  simp only at a1 a2 a3 a4 a5 a6 a7 a11
+  refine ⟨by rw [a1, b3]; rfl, ?_, by rw [a3, b5]; rfl, ?_, by rw [a5, b1]; simp [RT.init, St.init], ?_,
+          by rw [a7, b7]; rfl, ?_⟩
+  · intro i; rw [a1, b3]; simp [RT.init, St.init]
+  · intro i; rw [a3, b5]; simp [RT.init, St.init]
+  · intro i
+    rw [a5, a6, b1, b2 i]
+    simp only [RT.init, St.init, Nat.zero_add, Nat.zero_le, true_and]
+    by_cases hi : i < c.nPrealloc <;> simp [hi]
+  · intro x hx
+    rcases a11 x hx with k | k
+    · rw [b8] at k; simp [St.init] at k
+    · simpa [RT.init] using k
+
+
+/-! ### how an accepted manifest ends -/
+
+theorem firstLive_none : ∀ (n i : Nat) {cons : Nat → Bool}, firstLive cons n i = none →
+    ∀ j, i ≤ j → j < i + n → cons j = true := by
+  intro n
+  induction n with
+  | zero => intro i cons _ j h1 h2; omega
+  | succ n ih =>
+    intro i cons h j h1 h2
+    simp only [firstLive] at h
+    split at h
+    · rename_i hc
+      by_cases hj : j = i
+      · subst hj; exact hc
+      · exact ih (i + 1) h j (by omega) (by omega)
+    · cases h
+
+theorem runFrom_steps {r : Rules} {c : Ctx} : ∀ (effects : List Effect) (i : Nat) {s s' : St},
+    runFrom r c i s effects = .ok s' → ∀ e ∈ effects, ∃ s1 s2, step r c s1 e = .ok s2 := by
+  intro effects
+  induction effects with
+  | nil => intro i s s' _ e he; cases he
+  | cons x rest ih =>
+    intro i s s' h e he
+    simp only [runFrom] at h
+    split at h
+    · cases h
+    · rename_i s1 hs
+      rcases List.mem_cons.mp he with rfl | he
+      · exact ⟨s, s1, hs⟩
+      · exact ih (i + 1) h e he
+
+theorem step_ok_not_sub {r : Rules} {c : Ctx} {s s' : St} {e : Effect} (hsub : c.isSub = false)
+    (h : step r c s e = .ok s') : e.isYieldToParent = false ∧ e ≠ .verification := by
+  unfold step at h
+  cases hn : nextReq s e with
+  | error er => rw [hn] at h; cases h
+  | ok s0 =>
+    rw [hn] at h
+    cases e with
+    | verification => simp [hsub] at h
+    | invocation k d args =>
+      cases k with
+      | yieldParent => simp [handleInvocation, invTarget, hsub] at h
+      | _ => simp [Effect.isYieldToParent]
+    | _ => simp [Effect.isYieldToParent]
+
+theorem runFrom_pending_step {r : Rules} {c : Ctx} {s s' : St} {e : Effect}
+    (h : step r c s e = .ok s') (hp : s.pending = true) : e.isInvocation = true := by
+  unfold step nextReq at h
+  simp only [hp, if_true] at h
+  by_cases hi : e.isInvocation = true
+  · exact hi
+  · simp [hi] at h
 
 end Radix.StaticInterp
